@@ -187,6 +187,6 @@ def replay(rec):
     else:
         got = pu.point_in_bounds([cf(e["x"]), cf(e["y"])], [[cf(e["xlo"]), cf(e["ylo"])], [cf(e["xhi"]), cf(e["yhi"])]], cf(e["t"]))
         e2 = dict(e, pib=bool(got))
-    ctx = vlib.Ctx("C18", "quick", 0, LEVEL)
+    ctx = vlib.Ctx("C18", "quick", 0, LEVEL, fresh=False)
     v = validate(ctx, "replay", [e2])[0]
     return v in ("ok", "skip"), {"verdict": v, "event": e2}
